@@ -56,10 +56,11 @@ def _subst_prefix(k, old, new):
 
 
 def _has_prefix(k, old):
+    """k names a part of the object `old`: a field / element / pointee chain whose innermost base is `old` (the key of a statement or a call that merely mentions `old` does not)"""
     if k == old:
         return True
-    if isinstance(k, tuple):
-        return any(_has_prefix(x, old) for x in k)
+    if isinstance(k, tuple) and len(k) > 1 and k[0] in ("fld", "idx", "deref", "cast", "paren"):
+        return _has_prefix(k[2] if k[0] == "cast" and len(k) > 2 else k[1], old)
     return False
 
 
